@@ -1,7 +1,8 @@
 import HappyProofs.C09.PoolInv
 /-! Transcript of the connection-pool model, the well-formedness of a *schedule of generator segments*
-(what the engine guarantees about the order in which it resumes `acquire()` generators), and the
-structural invariants of the pool state that the judge's bookkeeping relies on. -/
+(what the engine guarantees about the order in which it resumes `acquire()` generators, delivers
+`_pool_idle_timeout` events and raises `TimeoutError`), and the structural invariants of the pool state
+that the judge's bookkeeping relies on. -/
 namespace HappyModel.C09.Pool
 
 /-- one transcript line (`Driver.runPool`): clock, segment, result, and the four public counters
@@ -9,10 +10,12 @@ namespace HappyModel.C09.Pool
 def obsOf (t : Nat) (o : Op) (r : Res) (s' : St) : Obs :=
   ⟨t, o, r, s'.active.length, s'.idle.length, s'.total, s'.waiters.length⟩
 
-/-- the model's transcript on a schedule of `(clock, segment)` pairs -/
+/-- the model's transcript on a schedule of `(clock, segment)` pairs: every segment is executed with
+    `stepAt` (the clock of the entry is the pool's `now`), exactly as `Driver.runPool` does -/
 def obsTrace (s : St) : List (Nat × Op) → List Obs
   | [] => []
-  | e :: rest => obsOf e.1 e.2 (step s e.2).2 (step s e.2).1 :: obsTrace (step s e.2).1 rest
+  | e :: rest =>
+    obsOf e.1 e.2 (stepAt s e.1 e.2).2 (stepAt s e.1 e.2).1 :: obsTrace (stepAt s e.1 e.2).1 rest
 
 /-- the id of a new `acquire()` call is not the id of a call that is still pending inside the pool
     (queued, or handed a connection it has not noticed yet) -/
@@ -25,44 +28,72 @@ def timerOk (timeoutNs : Nat) (since : List (Nat × Nat)) (t id : Nat) : Bool :=
   | some st => decide (st.2 + timeoutNs ≤ t)
   | none => false
 
-/-- one schedule entry is possible in state `s`: the segment exists (`step` does not answer `bad`:
-    `made` only while a set-up is in flight, `timeout` not in a call that was handed a connection),
-    a new call has a fresh id, a timeout obeys the timer -/
-def opOk (timeoutNs : Nat) (s : St) (since : List (Nat × Nat)) (t : Nat) (o : Op) : Bool :=
-  (step s o).2 != .bad &&
+/-- call `id` is the first waiter and there is capacity it could take (an idle connection, or a slot) -/
+def headFree (s : St) (id : Nat) : Bool :=
+  s.waiters.head? == some id && (!s.idle.isEmpty || decide (s.total < s.max))
+
+/-- one schedule entry `(t, o)` is possible in state `s`:
+
+* the segment exists (`stepAt` does not answer `bad`: `made id` only while call `id` has a set-up in
+  flight, `wmade` only while a warm-up set-up is in flight, `timeout` not in a call that was handed a
+  connection);
+* `acq id`: the call id is fresh (not queued, not handed a connection it has not noticed);
+* `timeout id`: the timer ran out (`timerOk`), and the call is not the first waiter with capacity free
+  (the real acquirer polls before it looks at its deadline, so it would have taken that capacity);
+* `idleCheck c e`: the event armed at `e` is delivered no earlier than `e + idleNs`. -/
+def opOk (timeoutNs idleNs : Nat) (s : St) (since : List (Nat × Nat)) (t : Nat) (o : Op) : Bool :=
+  (stepAt s t o).2 != .bad &&
   match o with
   | .acq id => freshId s id
-  | .timeout id => timerOk timeoutNs since t id
+  | .timeout id => timerOk timeoutNs since t id && !headFree s id
+  | .idleCheck _ e => decide (e + idleNs ≤ t)
   | _ => true
 
-def sinceAfter (s : St) (since : List (Nat × Nat)) (t : Nat) (o : Op) : List (Nat × Nat) :=
-  match o, (step s o).2 with
+def sinceStep (since : List (Nat × Nat)) (t : Nat) (o : Op) (r : Res) : List (Nat × Nat) :=
+  match o, r with
   | .acq id, .waiting => (id, t) :: since
   | _, _ => since
 
-/-- a schedule the engine can produce, threaded through the model state and the queueing times -/
-def SchedOk (timeoutNs : Nat) : St → List (Nat × Nat) → List (Nat × Op) → Bool
+def sinceAfter (s : St) (since : List (Nat × Nat)) (t : Nat) (o : Op) : List (Nat × Nat) :=
+  sinceStep since t o (stepAt s t o).2
+
+/-- a schedule the engine can produce, threaded through the (timed) model run and the queueing times -/
+def SchedOk (timeoutNs idleNs : Nat) : St → List (Nat × Nat) → List (Nat × Op) → Bool
   | _, _, [] => true
   | s, since, e :: rest =>
-    opOk timeoutNs s since e.1 e.2 && SchedOk timeoutNs (step s e.2).1 (sinceAfter s since e.1 e.2) rest
+    opOk timeoutNs idleNs s since e.1 e.2
+      && SchedOk timeoutNs idleNs (stepAt s e.1 e.2).1 (sinceAfter s since e.1 e.2) rest
 
 /-! ### structural invariants -/
 
-/-- `Inv` plus: connections are distinct and were all created (`≤ nextConn`); pending call ids are
-    distinct -/
+/-- connections are distinct and were all created (`≤ nextConn`) -/
+structure ConnOk (idle active closed : List Nat) (n : Nat) : Prop where
+  idleNodup : idle.Nodup
+  activeNodup : active.Nodup
+  disj : ∀ c ∈ idle, c ∉ active
+  idleLe : ∀ c ∈ idle, c ≤ n
+  activeLe : ∀ c ∈ active, c ≤ n
+  closedLe : ∀ c ∈ closed, c ≤ n
+
+/-- pending call ids are distinct -/
+structure QueueOk (w : List Nat) (hd : List (Nat × Nat)) : Prop where
+  waitNodup : w.Nodup
+  handNodup : (hd.map (·.1)).Nodup
+  waitHand : ∀ x ∈ w, x ∉ hd.map (·.1)
+
+abbrev St.ConnOk (s : St) : Prop := Pool.ConnOk s.idle s.active s.closed s.nextConn
+abbrev St.QueueOk (s : St) : Prop := Pool.QueueOk s.waiters s.handed
+
 structure Wf (s : St) : Prop where
   inv : Inv s
-  idleNodup : s.idle.Nodup
-  activeNodup : s.active.Nodup
-  disj : ∀ c ∈ s.idle, c ∉ s.active
-  idleLe : ∀ c ∈ s.idle, c ≤ s.nextConn
-  activeLe : ∀ c ∈ s.active, c ≤ s.nextConn
-  waitNodup : s.waiters.Nodup
-  handNodup : (s.handed.map (·.1)).Nodup
-  waitHand : ∀ w ∈ s.waiters, w ∉ s.handed.map (·.1)
+  conn : s.ConnOk
+  queue : s.QueueOk
 
-theorem init_wf (max : Nat) : Wf { max := max } :=
-  ⟨init_inv max, List.nodup_nil, List.nodup_nil, by simp, by simp, by simp, List.nodup_nil, List.nodup_nil, by simp⟩
+theorem init_wf (max min : Nat) (h : min ≤ max) : Wf { max := max, min := min } :=
+  ⟨init_inv' max min h, ⟨List.nodup_nil, List.nodup_nil, by simp, by simp, by simp, by simp⟩,
+   ⟨List.nodup_nil, List.nodup_nil, by simp⟩⟩
+
+theorem wf_now {s : St} (t : Nat) (wf : Wf s) : Wf { s with now := t } := ⟨inv_now t wf.inv, wf.conn, wf.queue⟩
 
 theorem nodup_snoc {α} {l : List α} {a : α} (h : l.Nodup) (ha : a ∉ l) : (l ++ [a]).Nodup := by
   rw [List.nodup_append]
@@ -71,9 +102,6 @@ theorem nodup_snoc {α} {l : List α} {a : α} (h : l.Nodup) (ha : a ∉ l) : (l
   have : y = a := by simpa using hy
   subst this
   intro e; subst e; exact ha hx
-
-theorem nodup_filter {α} (p : α → Bool) {l : List α} (h : l.Nodup) : (l.filter p).Nodup :=
-  List.Nodup.sublist List.filter_sublist h
 
 theorem freshId_spec {s : St} {id : Nat} (h : freshId s id = true) :
     id ∉ s.waiters ∧ id ∉ s.handed.map (·.1) := by
@@ -87,162 +115,264 @@ theorem freshId_spec {s : St} {id : Nat} (h : freshId s id = true) :
     have : s.handed.any (·.1 == id) = true := List.any_eq_true.2 ⟨x, hx, by simp [hxe]⟩
     rw [h.2] at this; cases this
 
-theorem step_wf (s : St) (o : Op) (wf : Wf s) (hfresh : ∀ id, o = .acq id → freshId s id = true) :
-    Wf (step s o).1 := by
-  have hinv := step_inv s o wf.inv
+/-! ### list lemmas about `ConnOk` -/
+
+variable {i a cl : List Nat} {n : Nat}
+
+theorem conn_take {c : Nat} {rest : List Nat} (h : ConnOk (c :: rest) a cl n) : ConnOk rest (a ++ [c]) cl n := by
+  have hc := List.nodup_cons.1 h.idleNodup
+  have hca : c ∉ a := h.disj c (by simp)
+  refine ⟨hc.2, nodup_snoc h.activeNodup hca, ?_, ?_, ?_, h.closedLe⟩
+  · intro x hx hxa
+    rcases List.mem_append.1 hxa with h' | h'
+    · exact h.disj x (List.mem_cons_of_mem _ hx) h'
+    · have : x = c := by simpa using h'
+      subst this; exact hc.1 hx
+  · intro x hx; exact h.idleLe x (List.mem_cons_of_mem _ hx)
+  · intro x hx
+    rcases List.mem_append.1 hx with h' | h'
+    · exact h.activeLe x h'
+    · have : x = c := by simpa using h'
+      subst this; exact h.idleLe x (by simp)
+
+theorem conn_new_active (h : ConnOk i a cl n) : ConnOk i (a ++ [n + 1]) cl (n + 1) := by
+  have hna : n + 1 ∉ a := fun hm => by have := h.activeLe _ hm; omega
+  refine ⟨h.idleNodup, nodup_snoc h.activeNodup hna, ?_, ?_, ?_, ?_⟩
+  · intro x hx hxa
+    rcases List.mem_append.1 hxa with h' | h'
+    · exact h.disj x hx h'
+    · have : x = n + 1 := by simpa using h'
+      have := h.idleLe x hx; omega
+  · intro x hx; have := h.idleLe x hx; omega
+  · intro x hx
+    rcases List.mem_append.1 hx with h' | h'
+    · have := h.activeLe x h'; omega
+    · have : x = n + 1 := by simpa using h'
+      omega
+  · intro x hx; have := h.closedLe x hx; omega
+
+theorem conn_new_idle (h : ConnOk i a cl n) : ConnOk (i ++ [n + 1]) a cl (n + 1) := by
+  have hni : n + 1 ∉ i := fun hm => by have := h.idleLe _ hm; omega
+  refine ⟨nodup_snoc h.idleNodup hni, h.activeNodup, ?_, ?_, ?_, ?_⟩
+  · intro x hx hxa
+    rcases List.mem_append.1 hx with h' | h'
+    · exact h.disj x h' hxa
+    · have : x = n + 1 := by simpa using h'
+      have := h.activeLe x hxa; omega
+  · intro x hx
+    rcases List.mem_append.1 hx with h' | h'
+    · have := h.idleLe x h'; omega
+    · have : x = n + 1 := by simpa using h'
+      omega
+  · intro x hx; have := h.activeLe x hx; omega
+  · intro x hx; have := h.closedLe x hx; omega
+
+theorem conn_to_idle {c : Nat} (hm : c ∈ a) (h : ConnOk i a cl n) : ConnOk (i ++ [c]) (a.erase c) cl n := by
+  have hci : c ∉ i := fun hi => h.disj c hi hm
+  refine ⟨nodup_snoc h.idleNodup hci, List.Nodup.erase c h.activeNodup, ?_, ?_, ?_, h.closedLe⟩
+  · intro x hx hxa
+    have hxe := (List.Nodup.mem_erase_iff h.activeNodup).1 hxa
+    rcases List.mem_append.1 hx with h' | h'
+    · exact h.disj x h' hxe.2
+    · have : x = c := by simpa using h'
+      exact hxe.1 this
+  · intro x hx
+    rcases List.mem_append.1 hx with h' | h'
+    · exact h.idleLe x h'
+    · have : x = c := by simpa using h'
+      subst this; exact h.activeLe x hm
+  · intro x hx
+    exact h.activeLe x ((List.Nodup.mem_erase_iff h.activeNodup).1 hx).2
+
+theorem conn_close {c : Nat} (hm : c ∈ i) (h : ConnOk i a cl n) : ConnOk (i.erase c) a (cl ++ [c]) n := by
+  refine ⟨List.Nodup.erase c h.idleNodup, h.activeNodup, ?_, ?_, h.activeLe, ?_⟩
+  · intro x hx; exact h.disj x (List.mem_of_mem_erase hx)
+  · intro x hx; exact h.idleLe x (List.mem_of_mem_erase hx)
+  · intro x hx
+    rcases List.mem_append.1 hx with h' | h'
+    · exact h.closedLe x h'
+    · have : x = c := by simpa using h'
+      subst this; exact h.idleLe x hm
+
+/-! ### list lemmas about `QueueOk` -/
+
+variable {w : List Nat} {hd : List (Nat × Nat)}
+
+theorem queue_push {id : Nat} (h : QueueOk w hd) (h1 : id ∉ w) (h2 : id ∉ hd.map (·.1)) :
+    QueueOk (w ++ [id]) hd := by
+  refine ⟨nodup_snoc h.waitNodup h1, h.handNodup, ?_⟩
+  intro x hx
+  rcases List.mem_append.1 hx with h' | h'
+  · exact h.waitHand x h'
+  · have : x = id := by simpa using h'
+    subst this; exact h2
+
+theorem queue_hand {x c : Nat} {ws : List Nat} (h : QueueOk (x :: ws) hd) : QueueOk ws (hd ++ [(x, c)]) := by
+  have hw := List.nodup_cons.1 h.waitNodup
+  have hwh : x ∉ hd.map (·.1) := h.waitHand x (by simp)
+  refine ⟨hw.2, ?_, ?_⟩
+  · rw [List.map_append]; exact nodup_snoc h.handNodup hwh
+  · intro y hy hm
+    rw [List.map_append] at hm
+    rcases List.mem_append.1 hm with h' | h'
+    · exact h.waitHand y (List.mem_cons_of_mem _ hy) h'
+    · have : y = x := by simpa using h'
+      subst this; exact hw.1 hy
+
+theorem queue_wsub {w' : List Nat} (hs : w'.Sublist w) (h : QueueOk w hd) : QueueOk w' hd :=
+  ⟨h.waitNodup.sublist hs, h.handNodup, fun x hx => h.waitHand x (hs.subset hx)⟩
+
+theorem queue_hfilter (p : Nat × Nat → Bool) (h : QueueOk w hd) : QueueOk w (hd.filter p) := by
+  have hsub : ((hd.filter p).map (·.1)).Sublist (hd.map (·.1)) := List.Sublist.map _ List.filter_sublist
+  exact ⟨h.waitNodup, h.handNodup.sublist hsub, fun x hx hm => h.waitHand x hx (hsub.subset hm)⟩
+
+/-! ### every segment keeps the structural invariants -/
+
+theorem giveBack_conn (s : St) (c : Nat) (hm : c ∈ s.active) (h : s.ConnOk) : (giveBack s c).1.ConnOk := by
+  rw [giveBack_eq]
+  split
+  · exact h
+  · exact conn_to_idle hm h
+
+theorem step_conn (s : St) (o : Op) (h : s.ConnOk) : (step s o).1.ConnOk := by
+  have h' : ConnOk s.idle s.active s.closed s.nextConn := h
   cases o with
   | acq id =>
-    cases hi : s.idle with
-    | cons c rest =>
-      have hs : step s (.acq id) = ({ s with idle := rest, active := s.active ++ [c] }, .idle c) := by
-        rw [step_acq, hi]
-      have hnd := wf.idleNodup
-      rw [hi] at hnd
-      have hc := List.nodup_cons.1 hnd
-      have hca : c ∉ s.active := wf.disj c (by rw [hi]; simp)
-      rw [hs] at hinv ⊢
-      refine ⟨hinv, hc.2, nodup_snoc wf.activeNodup hca, ?_, ?_, ?_, wf.waitNodup, wf.handNodup, wf.waitHand⟩
-      · intro x hx hxa
-        have hx' : x ∈ rest := hx
-        have hxa' : x ∈ s.active ++ [c] := hxa
-        rcases List.mem_append.1 hxa' with h | h
-        · exact wf.disj x (by rw [hi]; exact List.mem_cons_of_mem _ hx') h
-        · have : x = c := by simpa using h
-          subst this; exact hc.1 hx'
-      · intro x hx
-        exact wf.idleLe x (by rw [hi]; exact List.mem_cons_of_mem _ hx)
-      · intro x hx
-        have hx' : x ∈ s.active ++ [c] := hx
-        rcases List.mem_append.1 hx' with h | h
-        · exact wf.activeLe x h
-        · have : x = c := by simpa using h
-          subst this; exact wf.idleLe x (by rw [hi]; simp)
-    | nil =>
-      by_cases hlt : s.total < s.max
-      · have hs : step s (.acq id) =
-            ({ s with creating := s.creating + 1, total := if s.reserve then s.total + 1 else s.total }, .creating) := by
-          rw [step_acq, hi]; simp only [if_pos hlt]
-        rw [hs] at hinv ⊢
-        exact ⟨hinv, wf.idleNodup, wf.activeNodup, wf.disj, wf.idleLe, wf.activeLe, wf.waitNodup, wf.handNodup,
-          wf.waitHand⟩
-      · have hs : step s (.acq id) = ({ s with waiters := s.waiters ++ [id] }, .waiting) := by
-          rw [step_acq, hi]; simp only [if_neg hlt]
-        have hf := freshId_spec (hfresh id rfl)
-        rw [hs] at hinv ⊢
-        refine ⟨hinv, wf.idleNodup, wf.activeNodup, wf.disj, wf.idleLe, wf.activeLe,
-          nodup_snoc wf.waitNodup hf.1, wf.handNodup, ?_⟩
-        intro w hw
-        have hw' : w ∈ s.waiters ++ [id] := hw
-        rcases List.mem_append.1 hw' with h | h
-        · exact wf.waitHand w h
-        · have : w = id := by simpa using h
-          subst this; exact hf.2
+    rw [step_acq]
+    split
+    · rename_i c rest hi
+      rw [hi] at h'
+      exact conn_take h'
+    · split <;> exact h
   | made id =>
-    by_cases hcr : s.creating = 0
-    · have hs : step s (.made id) = (s, .bad) := by rw [step_made, if_pos hcr]
-      rw [hs]; exact wf
-    · have hs : step s (.made id) =
-          ({ s with creating := s.creating - 1, nextConn := s.nextConn + 1,
-                    total := if s.reserve then s.total else s.total + 1,
-                    active := s.active ++ [s.nextConn + 1] }, .conn (s.nextConn + 1)) := by
-        rw [step_made, if_neg hcr]
-      have hna : s.nextConn + 1 ∉ s.active := fun h => by have := wf.activeLe _ h; omega
-      rw [hs] at hinv ⊢
-      refine ⟨hinv, wf.idleNodup, nodup_snoc wf.activeNodup hna, ?_, ?_, ?_, wf.waitNodup, wf.handNodup, wf.waitHand⟩
-      · intro x hx hxa
-        have hxa' : x ∈ s.active ++ [s.nextConn + 1] := hxa
-        rcases List.mem_append.1 hxa' with h | h
-        · exact wf.disj x hx h
-        · have : x = s.nextConn + 1 := by simpa using h
-          have := wf.idleLe x hx; omega
-      · intro x hx
-        have := wf.idleLe x hx
-        show x ≤ s.nextConn + 1; omega
-      · intro x hx
-        have hx' : x ∈ s.active ++ [s.nextConn + 1] := hx
-        show x ≤ s.nextConn + 1
-        rcases List.mem_append.1 hx' with h | h
-        · have := wf.activeLe x h; omega
-        · have : x = s.nextConn + 1 := by simpa using h
-          omega
+    rw [step_made]
+    split
+    · exact h
+    · exact conn_new_active h'
   | poll id =>
-    cases hf : s.handed.find? (·.1 == id) with
-    | none =>
-      have hs : step s (.poll id) = (s, .wait) := by rw [step_poll, hf]
-      rw [hs]; exact wf
-    | some h =>
-      have hs : step s (.poll id) = ({ s with handed := s.handed.filter (·.1 != id) }, .got h.2) := by
-        rw [step_poll, hf]
-      have hsub : ((s.handed.filter (·.1 != id)).map (·.1)).Sublist (s.handed.map (·.1)) :=
-        List.Sublist.map _ List.filter_sublist
-      rw [hs] at hinv ⊢
-      refine ⟨hinv, wf.idleNodup, wf.activeNodup, wf.disj, wf.idleLe, wf.activeLe, wf.waitNodup,
-        List.Nodup.sublist hsub wf.handNodup, ?_⟩
-      intro w hw hm
-      exact wf.waitHand w hw (hsub.subset hm)
+    rw [step_poll]
+    split
+    · exact h
+    · split
+      · exact h
+      · split
+        · rename_i c rest hi
+          rw [hi] at h'
+          exact conn_take h'
+        · split <;> exact h
   | timeout id =>
-    by_cases hb : (s.handed.find? (·.1 == id)).isSome
-    · have hs : step s (.timeout id) = (s, .bad) := by rw [step_timeout, if_pos hb]
-      rw [hs]; exact wf
-    · have hs : step s (.timeout id) = ({ s with waiters := s.waiters.filter (· != id) }, .timedOut) := by
-        rw [step_timeout, if_neg hb]
-      rw [hs] at hinv ⊢
-      refine ⟨hinv, wf.idleNodup, wf.activeNodup, wf.disj, wf.idleLe, wf.activeLe,
-        nodup_filter _ wf.waitNodup, wf.handNodup, ?_⟩
-      intro w hw
-      have hw' : w ∈ s.waiters.filter (· != id) := hw
-      exact wf.waitHand w (List.mem_filter.1 hw').1
+    rw [step_timeout]
+    split <;> exact h
   | rel c =>
-    by_cases hact : (!s.active.contains c) = true
-    · have hs : step s (.rel c) = (s, .unknown) := by rw [step_rel, if_pos hact]
-      rw [hs]; exact wf
-    · cases hq : s.waiters with
-      | cons w ws =>
-        have hs : step s (.rel c) = ({ s with waiters := ws, handed := s.handed ++ [(w, c)] }, .handoff w) := by
-          rw [step_rel, if_neg hact, hq]
-        have hnd := wf.waitNodup
-        rw [hq] at hnd
-        have hw := List.nodup_cons.1 hnd
-        have hwh : w ∉ s.handed.map (·.1) := wf.waitHand w (by rw [hq]; simp)
-        rw [hs] at hinv ⊢
-        refine ⟨hinv, wf.idleNodup, wf.activeNodup, wf.disj, wf.idleLe, wf.activeLe, hw.2, ?_, ?_⟩
-        · show ((s.handed ++ [(w, c)]).map (·.1)).Nodup
-          rw [List.map_append]
-          exact nodup_snoc wf.handNodup hwh
-        · intro x hx hm
-          have hx' : x ∈ ws := hx
-          have hm' : x ∈ (s.handed ++ [(w, c)]).map (·.1) := hm
-          rw [List.map_append] at hm'
-          rcases List.mem_append.1 hm' with h | h
-          · exact wf.waitHand x (by rw [hq]; exact List.mem_cons_of_mem _ hx') h
-          · have : x = w := by simpa using h
-            subst this; exact hw.1 hx'
-      | nil =>
-        have hs : step s (.rel c) = ({ s with active := s.active.erase c, idle := s.idle ++ [c] }, .toIdle) := by
-          rw [step_rel, if_neg hact, hq]
-        have hmem : c ∈ s.active := by
-          have : s.active.contains c = true := by simpa using hact
-          exact List.contains_iff_mem.1 this
-        have hci : c ∉ s.idle := fun h => wf.disj c h hmem
-        rw [hs] at hinv ⊢
-        refine ⟨hinv, nodup_snoc wf.idleNodup hci, List.Nodup.erase c wf.activeNodup, ?_, ?_, ?_,
-          by rw [← hq]; exact wf.waitNodup, wf.handNodup, by intro w hw; rw [hq] at hw; cases hw⟩
-        · intro x hx hxa
-          have hx' : x ∈ s.idle ++ [c] := hx
-          have hxa' : x ∈ s.active.erase c := hxa
-          have hxe := (List.Nodup.mem_erase_iff wf.activeNodup).1 hxa'
-          rcases List.mem_append.1 hx' with h | h
-          · exact wf.disj x h hxe.2
-          · have : x = c := by simpa using h
-            exact hxe.1 this
-        · intro x hx
-          have hx' : x ∈ s.idle ++ [c] := hx
-          rcases List.mem_append.1 hx' with h | h
-          · exact wf.idleLe x h
-          · have : x = c := by simpa using h
-            subst this; exact wf.activeLe x hmem
-        · intro x hx
-          have hx' : x ∈ s.active.erase c := hx
-          exact wf.activeLe x ((List.Nodup.mem_erase_iff wf.activeNodup).1 hx').2
+    rw [step_rel]
+    split
+    · exact h
+    · rename_i hact
+      exact giveBack_conn s c (by simpa using hact) h
+  | abandon id =>
+    rw [step_abandon]
+    split
+    · exact h
+    · split
+      · split
+        · exact h
+        · rename_i hact
+          exact giveBack_conn _ _ (by simpa using hact) h
+      · split <;> exact h
+  | idleCheck c e =>
+    rw [step_idleCheck]
+    split
+    · rename_i hcond
+      split
+      · have hmem : c ∈ s.idle := by
+          simp only [Bool.and_eq_true] at hcond
+          exact List.contains_iff_mem.1 hcond.1
+        exact conn_close hmem h'
+      · exact h
+    · exact h
+  | warm =>
+    rw [step_warm]
+    split <;> exact h
+  | wmade =>
+    rw [step_wmade]
+    split
+    · exact h
+    · exact conn_new_idle h'
+
+theorem giveBack_queue (s : St) (c : Nat) (h : s.QueueOk) : (giveBack s c).1.QueueOk := by
+  rw [giveBack_eq]
+  split
+  · rename_i x ws hq
+    have h' : QueueOk s.waiters s.handed := h
+    rw [hq] at h'
+    exact queue_hand h'
+  · exact h
+
+theorem step_queue (s : St) (o : Op) (h : s.QueueOk) (hfresh : ∀ id, o = .acq id → freshId s id = true) :
+    (step s o).1.QueueOk := by
+  have h' : QueueOk s.waiters s.handed := h
+  cases o with
+  | acq id =>
+    rw [step_acq]
+    split
+    · exact h
+    · split
+      · exact h
+      · have hf := freshId_spec (hfresh id rfl)
+        exact queue_push h' hf.1 hf.2
+  | made id =>
+    rw [step_made]
+    split <;> exact h
+  | poll id =>
+    rw [step_poll]
+    split
+    · exact queue_hfilter _ h'
+    · split
+      · exact h
+      · split
+        · exact queue_wsub (List.tail_sublist _) h'
+        · split
+          · exact queue_wsub (List.tail_sublist _) h'
+          · exact h
+  | timeout id =>
+    rw [step_timeout]
+    split
+    · exact h
+    · exact queue_wsub List.filter_sublist h'
+  | rel c =>
+    rw [step_rel]
+    split
+    · exact h
+    · exact giveBack_queue s c h
+  | abandon id =>
+    rw [step_abandon]
+    split
+    · exact h
+    · split
+      · split
+        · exact queue_hfilter _ h'
+        · exact giveBack_queue _ _ (queue_hfilter _ h')
+      · split
+        · exact queue_wsub List.filter_sublist h'
+        · exact h
+  | idleCheck c e =>
+    rw [step_idleCheck]
+    split
+    · split <;> exact h
+    · exact h
+  | warm =>
+    rw [step_warm]
+    split <;> exact h
+  | wmade =>
+    rw [step_wmade]
+    split <;> exact h
+
+theorem step_wf (s : St) (o : Op) (wf : Wf s) (hfresh : ∀ id, o = .acq id → freshId s id = true) :
+    Wf (step s o).1 :=
+  ⟨step_inv s o wf.inv, step_conn s o wf.conn, step_queue s o wf.queue hfresh⟩
+
+theorem stepAt_wf (s : St) (t : Nat) (o : Op) (wf : Wf s) (hfresh : ∀ id, o = .acq id → freshId s id = true) :
+    Wf (stepAt s t o).1 :=
+  step_wf { s with now := t } o (wf_now t wf) hfresh
 
 end HappyModel.C09.Pool
